@@ -67,6 +67,9 @@ def main():
         cmod = importlib.import_module(modname)
         c = [x for x in cmod.CONTRACTS if x.name == target][0]
         labels = list(cmod.configs_for(c).keys()) if hasattr(cmod, "configs_for") else [""]
+        only = os.environ.get("PYVC_ONLY")
+        if only:
+            labels = [lb for lb in labels if lb in only.split(",")]
         for lb in labels:
             units.append((modname, target, lb, timeout_ms, replay_dir, a.prop))
     tasks = [("unit", u) for u in units]
